@@ -446,6 +446,7 @@ pub fn spec() -> PropertySpec {
         assumptions: vec![
             "IPA treats any hiding bound (including 0) as 'hiding' and Ligero parameters do not bound the polynomial size: not out of domain for those schemes",
             "PST13 / multilinear PST polynomials with fewer variables than the key are scheme-defined and not asserted",
+            "schemes without degree-bound or hiding support (PST13: bounds; Hyrax: both fields; Ligero/Brakedown: both, documented as 'does not support hiding') ignore those LabeledPolynomial fields, and the repository's own test templates pass hiding bounds to them: treated as defined behaviour, not as an out-of-domain request",
         ],
         units,
         watchdog_s: (1800, 7200),
